@@ -560,6 +560,114 @@ func runC16(c *Ctx) {
 	checkDoneOnAllExits(r, p, "wg/done-on-exit", pkg, p.FuncDecl(pkg, "WorkerPool", "worker"), "ShutdownComplete")
 	checkGuards(r, p, "lock/guarded-by", []GuardRow{{Pkg: pkg, Type: "WorkerPool", Mutex: "mutex", Fields: []string{"isRunning"}}})
 	checkLockBalance(r, p, "lock/balance", []string{pkg}, nil, nil)
+	// Start: the test of the running flag and its setting are ONE step for every other Start - either no
+	// release of the pool mutex lies between them, or a mutex of the pool other than the pool mutex is
+	// held for the whole call (Lock + top-level deferred Unlock as the first statements). Otherwise two
+	// overlapping Start calls both find the pool stopped and both start dispatcher and workers.
+	if f := p.CFGOf(pkg, "WorkerPool", "Start"); f == nil {
+		r.Unresolved("start/test-and-set-one-section", pkg+".WorkerPool.Start", "method not found")
+	} else {
+		key := pkg + ".WorkerPool.Start"
+		// the flag as a plain field or as an atomic.Bool (Load / Store(true))
+		flagCall := func(e ast.Node, method string) *ast.CallExpr {
+			c, ok := e.(*ast.CallExpr)
+			if !ok {
+				return nil
+			}
+			se, ok := ast.Unparen(c.Fun).(*ast.SelectorExpr)
+			if !ok || se.Sel.Name != method || !fieldSel(info, se.X, "isRunning") {
+				return nil
+			}
+			return c
+		}
+		_, notRunning := f.CondEdges(func(e ast.Expr) bool {
+			return fieldSel(info, e, "isRunning") || flagCall(ast.Unparen(e), "Load") != nil
+		})
+		sets := f.Find(func(n ast.Node) bool {
+			if c := flagCall(n, "Store"); c != nil && len(c.Args) == 1 && exprKey(c.Args[0]) == "true" {
+				return true
+			}
+			as, ok := n.(*ast.AssignStmt)
+			return ok && len(as.Lhs) == 1 && len(as.Rhs) == 1 && fieldSel(info, as.Lhs[0], "isRunning") && exprKey(as.Rhs[0]) == "true"
+		})
+		isSet := func(n ast.Node) bool {
+			for _, sp := range sets {
+				if f.nodeAt(sp) == n || containsNode(f.nodeAt(sp), n) || containsNode(n, f.nodeAt(sp)) {
+					return true
+				}
+			}
+			return false
+		}
+		releasePath := func(n ast.Node) string {
+			c, ok := n.(*ast.CallExpr)
+			if !ok {
+				return ""
+			}
+			if op, path := lockOp(info, c); op == "Unlock" || op == "RUnlock" {
+				return path
+			}
+			return ""
+		}
+		isRelease := func(n ast.Node) bool { return releasePath(n) != "" }
+		// a serialiser: first statements `x.Lock(); defer x.Unlock()` on a mutex that is not the pool mutex
+		serialised := ""
+		if fd := p.FuncDecl(pkg, "WorkerPool", "Start"); fd != nil && len(fd.Body.List) >= 2 {
+			if es, ok := fd.Body.List[0].(*ast.ExprStmt); ok {
+				if c, isCall := es.X.(*ast.CallExpr); isCall {
+					if op, path := lockOp(info, c); op == "Lock" {
+						if ds, isDefer := fd.Body.List[1].(*ast.DeferStmt); isDefer {
+							if op2, path2 := lockOp(info, ds.Call); op2 == "Unlock" && path2 == path {
+								n := 0
+								ast.Inspect(fd.Body, func(m ast.Node) bool {
+									if c2, ok := m.(*ast.CallExpr); ok {
+										if op3, path3 := lockOp(info, c2); op3 == "Unlock" && path3 == path {
+											n++
+										}
+									}
+									return true
+								})
+								if n == 1 {
+									serialised = path
+								}
+							}
+						}
+					}
+				}
+			}
+		}
+		switch {
+		case len(notRunning) == 0 || len(sets) == 0:
+			r.Unresolved("start/test-and-set-one-section", key, fmt.Sprintf("expected a test of isRunning and an assignment isRunning = true in Start (found %d / %d)", len(notRunning), len(sets)))
+		default:
+			bad := ""
+			var wit []string
+			for _, e := range notRunning {
+				// a release reachable from the not-running edge before the flag is set, from which the set is still reachable
+				for _, rp := range f.Find(isRelease) {
+					if _, isDefer := f.nodeAt(rp).(*ast.DeferStmt); isDefer {
+						continue
+					}
+					if _, toRel := f.reach(Point{e.From.Succs[e.Succ], 0}, &searchOpts{AvoidNode: isSet}, func(pt Point, atExit bool) bool { return !atExit && pt == rp }); !toRel {
+						continue
+					}
+					if w, toSet := f.reach(Point{rp.B, rp.I + 1}, nil, func(pt Point, atExit bool) bool { return !atExit && isSet(f.nodeAt(pt)) }); toSet {
+						if releasePath(f.nodeAt(rp)) == serialised {
+							// the would-be serialiser itself is released in between
+							serialised = ""
+						}
+						bad, wit = f.PosOf(rp), w
+					}
+				}
+			}
+			if bad != "" && serialised == "" {
+				r.Fail("start/test-and-set-one-section", key, bad, "the pool mutex is released between the test of isRunning and isRunning = true, and no other mutex serialises Start: two overlapping Start calls both find the pool stopped, both start a dispatcher and a full set of workers (twice the workers, a second dispatcher on a replaced channel)", wit...)
+			} else if bad != "" {
+				r.Pass("start/test-and-set-one-section", key, bad, "the pool mutex is released between test and set, but "+serialised[strings.LastIndex(serialised, ".")+1:]+" is held for the whole call: starters are serialised")
+			} else {
+				r.Pass("start/test-and-set-one-section", key, f.PosOf(sets[0]), "no release of the pool mutex between the test of isRunning and isRunning = true")
+			}
+		}
+	}
 	// Start: dispatcherChan created before the goroutines, under the lock
 	if f := p.CFGOf(pkg, "WorkerPool", "startDispatcher"); f != nil {
 		gos := f.Find(func(n ast.Node) bool { _, ok := n.(*ast.GoStmt); return ok })
